@@ -182,6 +182,7 @@ pub fn apply_directive(w: &[&str]) -> bool {
                 "predpanic_nth" => c.pred_panic_nth = n,
                 "refuse_nth" => c.refuse_nth = n,
                 "hasher_clone_panic" => c.hasher_clone_panics = true,
+                "intopanic" => c.into_panics = true,
                 _ => panic!("unknown arm {}", w[1]),
             });
             true
@@ -200,6 +201,7 @@ pub fn disarm() {
         c.pred_panic_nth = None;
         c.refuse_nth = None;
         c.hasher_clone_panics = false;
+        c.into_panics = false;
     })
 }
 
@@ -624,6 +626,32 @@ pub fn do_op<K: KeyT, V: ValT>(m: &mut Map<K, V>, w: &[&str], chk: &mut Vec<Stri
                 })
                 .collect();
             m.extend(items);
+            Out::Unit
+        }
+        // extend(iter) where iter.next() panics when asked for item number p (p items were handed over);
+        // size_hint is exact for the whole list, as for a Vec's iterator
+        "extendp" => {
+            let p = n(1) as usize;
+            let items: Vec<(K, V)> = w[2..]
+                .iter()
+                .map(|t| {
+                    let q: Vec<&str> = t.split(':').collect();
+                    (K::mk(parse_u64(q[0]), parse_u64(q[1])), V::mk(parse_u64(q[2])))
+                })
+                .collect();
+            struct PanicIter<I: Iterator> { inner: I, left: usize }
+            impl<I: Iterator> Iterator for PanicIter<I> {
+                type Item = I::Item;
+                fn next(&mut self) -> Option<I::Item> {
+                    if self.left == 0 && self.inner.size_hint().0 > 0 {
+                        std::panic::panic_any(HvPanic("iter"));
+                    }
+                    self.left = self.left.saturating_sub(1);
+                    self.inner.next()
+                }
+                fn size_hint(&self) -> (usize, Option<usize>) { self.inner.size_hint() }
+            }
+            m.extend(PanicIter { inner: items.into_iter(), left: p });
             Out::Unit
         }
         "drain" => {
